@@ -25,7 +25,7 @@ RULE = (
     "cases = kind csb (explicit proposal/total/bound vectors, n 1..10, scale 1e-2..1e7, bounds 0/finite/inf/equal, totals interior/at-min/at-max/"
     "infeasible by 0.5..1e-9 relative/zero, proposals random/all-zero/single/feasible/rescaled-feasible/feasible-plus-bump/at-bounds), kind tsc "
     "(Optimization with plain/paired/package adjustments on 10 programs, 1..3 years each, abs/rel bounds, default or explicit totals, scalar or "
-    "per-year budget factor, 1..2 proposals inside the adjustables' limits: uniform/initial/at-lower/at-upper/water-filled to total*(1+eps)/single non-zero), kind pkg "
+    "per-year budget factor, 1..2 proposals inside the adjustables' limits: uniform/initial/at-lower/at-upper/water-filled to total*(1+eps)/single non-zero/package totals at their minimum; explicit constraint years in arbitrary order with per-year totals and factors), kind pkg "
     "(2..6 members, fixed or free proportions, fixed or adjustable total, 1..3 proposals), kind paired (two gradients per case); non-trivial = the problem is infeasible "
     "(exception or UnresolvableConstraint expected) or the proposal needed a projection (rescaled proposal breaks a bound / allocation changed by the "
     "constraint) / package fractions needed rescaling / non-zero paired transfer; distinct = distinct case hash"
@@ -207,6 +207,15 @@ def csb_cases(draw):
 @st.composite
 def package_spec(draw, progs, scale, year, name):
     k = len(progs)
+    if draw(st.integers(0, 3)) == 0:
+        # tight flavour: unequal members, proportion limits hugging the initial proportions (so that an equal split is
+        # not allowed), total adjustable from 0 - the constraint may have to hand money to a package whose proposal is 0
+        initial = [scale * (0.05 + draw(unit)) * (i + 1) for i in range(k)]
+        tot0 = float(np.array(initial).sum())
+        props = [float(v) for v in np.array(initial) / tot0]
+        a, b = draw(st.sampled_from([1.0, 0.9, 0.75])), draw(st.sampled_from([0.0, 0.1, 0.25]))
+        max_total = draw(st.sampled_from([tot0 * 1.5, tot0 * 3.0 + scale, tot0]))
+        return {"type": "package", "name": name, "year": year, "progs": progs, "initial": initial, "min_props": [p * a for p in props], "max_props": [min(1.0, p + (1.0 - p) * b) for p in props], "min_total": 0.0, "max_total": max_total, "fix_props": False}
     initial = [0.0] * k if draw(st.integers(0, 11)) == 0 else [scale * draw(unit) for _ in range(k)]
     tot0 = float(np.array(initial).sum())
     props = [1.0 / k] * k if tot0 == 0 else [float(v) for v in np.array(initial) / tot0]
@@ -287,7 +296,11 @@ def tsc_cases(draw):
     years = sorted(m["entries"])
     con = {"t": None, "total": None, "bf": 1.0}
     if years and draw(st.booleans()):
-        con["t"] = sorted(draw(st.lists(st.sampled_from(years), min_size=1, max_size=len(years), unique=True)))
+        # the user's order is arbitrary (also descending): totals / budget factors belong to the year at the same position
+        con["t"] = draw(st.lists(st.sampled_from(years), min_size=1, max_size=len(years), unique=True))
+        order = draw(st.sampled_from(["drawn", "drawn", "ascending", "descending"]))
+        if order != "drawn":
+            con["t"] = sorted(con["t"], reverse=(order == "descending"))
         bk = draw(st.sampled_from(["one", "scalar", "list", "list"]))
         if bk == "scalar":
             con["bf"] = draw(st.one_of(st.sampled_from([0.5, 2.0, 1.3, 0.0]), st.floats(min_value=0.1, max_value=3.0)))
@@ -309,8 +322,8 @@ def tsc_cases(draw):
     nx = len(m["adjustables"])
     props = []
     for _ in range(draw(st.sampled_from([1, 1, 2]))):
-        mode = draw(st.sampled_from(["u", "u", "u", "initial", "lower", "upper", "near", "near", "zero-single"]))
-        u = draw(st.lists(unit, min_size=nx, max_size=nx)) if mode in ("u", "near", "zero-single") else [0.5] * nx
+        mode = draw(st.sampled_from(["u", "u", "u", "initial", "lower", "upper", "near", "near", "zero-single"] + (["pkg-low", "pkg-low", "pkg-low"] if npk else [])))
+        u = draw(st.lists(unit, min_size=nx, max_size=nx)) if mode in ("u", "near", "zero-single", "pkg-low") else [0.5] * nx
         props.append({"mode": mode, "u": u, "eps": draw(eps_s) * draw(st.sampled_from([1.0, -1.0])) if mode == "near" else 0.0, "k": draw(st.integers(0, max(0, nx - 1))) if mode == "zero-single" else 0})
     case["props"] = props
     return case
@@ -475,6 +488,8 @@ def _x_from(prop, m, scale, totals=None):
             x = lo
         elif prop["mode"] == "upper":
             x = top
+        elif prop["mode"] == "pkg-low" and a["kind"] == "pkgtotal":
+            x = lo  # nothing (or the minimum) is proposed for every package; the constraint may still have to fund it
         else:
             x = lo + u * (top - lo)
         xs.append(min(max(x, lo), top))
@@ -603,6 +618,8 @@ def _check_tsc(case):
         labels.append("budget-factor!=1" + ("(per-year)" if isinstance(con["bf"], list) else ""))
     labels.append("total:explicit" if con["total"] is not None and any(v is not None for v in con["total"]) else "total:default-budget")
     labels.append("years:explicit" if con["t"] is not None else "years:all-adjusted")
+    if con["t"] is not None and list(con["t"]) != sorted(con["t"]):
+        labels.append("years:not-ascending" + ("+per-year-values" if isinstance(con["bf"], list) or con["total"] is not None else ""))
     if m["nanbound"]:
         labels.append("nan-bound(0*inf relative)")
     desc = "case %r" % (case,)
@@ -744,6 +761,8 @@ def _check_tsc(case):
                     raise Violation(ID, "bound-violated", "year %r %s: constrained spend %r outside [%r,%r] for x=%r; %s" % (t, e["key"], v, lo, hi, x, desc))
                 if e["kind"] == "package" and v > 0:
                     pm = _pkg_model(e["spec"])
+                    if all(before[NAMES[p]][1][before[NAMES[p]][0].index(t)] == 0 for p in e["progs"]):
+                        labels.append("package-funded-from-zero" + ("" if pm["fix"] else ("(limits-exclude-equal-split)" if any(mn > 1.0 / len(vals) + 1e-9 or mx < 1.0 / len(vals) - 1e-9 for mn, mx in zip(pm["minp"], pm["maxp"])) else "")))
                     for p, val, mn, mx in zip(e["progs"], vals, pm["minp"], pm["maxp"]):
                         if pm["fix"]:
                             continue
